@@ -421,6 +421,12 @@ func govCases(pa, pb string) []govCase {
 		g("vm wrong type int for string", `NewSysParamInt64PropRequest(cross(cur), "vm", "p", "storage_price", 5)`, "vm", "p", "storage_price", false),
 		g("vm wrong type string for int", `NewSysParamStringPropRequest(cross(cur), "vm", "p", "iter_next_cost_flat", "5")`, "vm", "p", "iter_next_cost_flat", false),
 		g("vm wrong type bytes", `NewSysParamBytesPropRequest(cross(cur), "vm", "p", "chain_domain", []byte("evil.land"))`, "vm", "p", "chain_domain", false),
+		g("vm nil bytes (delete form) on an int key", `NewSysParamBytesPropRequest(cross(cur), "vm", "p", "iter_next_cost_flat", nil)`, "vm", "p", "iter_next_cost_flat", false),
+		g("vm nil bytes on chain_domain", `NewSysParamBytesPropRequest(cross(cur), "vm", "p", "chain_domain", nil)`, "vm", "p", "chain_domain", false),
+		g("vm empty bytes on chain_domain", `NewSysParamBytesPropRequest(cross(cur), "vm", "p", "chain_domain", []byte{})`, "vm", "p", "chain_domain", false),
+		g("auth nil bytes on fee_collector", `NewSysParamBytesPropRequest(cross(cur), "auth", "p", "fee_collector", nil)`, "auth", "p", "fee_collector", false),
+		g("bank nil bytes on restricted_denoms", `NewSysParamBytesPropRequest(cross(cur), "bank", "p", "restricted_denoms", nil)`, "bank", "p", "restricted_denoms", false),
+		g("node nil bytes on valset current", `NewSysParamBytesPropRequest(cross(cur), "node", "valset", "current", nil)`, "node", "valset", "current", false),
 		g("vm wrong type uint64", `NewSysParamUint64PropRequest(cross(cur), "vm", "p", "iter_next_cost_flat", 5)`, "vm", "p", "iter_next_cost_flat", false),
 		g("vm wrong type bool", `NewSysParamBoolPropRequest(cross(cur), "vm", "p", "chain_domain", true)`, "vm", "p", "chain_domain", false),
 		g("unknown module", `NewSysParamStringPropRequest(cross(cur), "nomod", "p", "x", "y")`, "nomod", "p", "x", false),
